@@ -167,6 +167,32 @@ def gen_qremote(repo):
         raise TranslateError('net_conn_shutdown: clean branch changed')
     out += _nat('QR_EXIT_CODE', one(r'\bexit\((\d+)\)\s*;', sh, 'net_conn_shutdown exit code'))
 
+    # ---- connect_mx (conn_mx.c): the two exits before the connection is usable; do they report first?
+    cm = func_body(strip_comments(read(repo, 'qremote/conn_mx.c')), 'connect_mx', 'qremote/conn_mx.c')
+    def first_word(lit):
+        return c_unescape(lit.split(' ')[0])
+    m = re.search(r'if\s*\(dup2\(socketd\s*,\s*0\)\s*<\s*0\)\s*\{\s*daneinfo_free\(d\s*,\s*tlsa\)\s*;\s*(?:write_status\("([^"]*)"\)\s*;\s*)?net_conn_shutdown\(shutdown_abort\)\s*;\s*\}', cm)
+    if not m:
+        raise TranslateError('connect_mx: dup2() failure path not recognised')
+    out += 'Definition QR_CONN_DUP2_REPORTS : bool := %s.\n' % ('true' if m.group(1) else 'false')
+    out += 'Definition QR_RPT_CONN_DUP2 : list N := %s.\n' % coq_bytes(first_word(m.group(1)) if m.group(1) else [])
+    if not re.search(r'int\s+s\s*=\s*netget\(0\)\s*;\s*if\s*\(s\s*<\s*0\)\s*\{\s*switch\s*\(-s\)\s*\{\s*case\s+ECONNRESET\s*:', cm) or \
+       not re.search(r'case\s+EINVAL\s*:', cm):
+        raise TranslateError('connect_mx: switch on the result of the first netget(0) changed')
+    m = re.search(r'default\s*:\s*daneinfo_free\(d\s*,\s*tlsa\)\s*;\s*(.*?)net_conn_shutdown\(shutdown_abort\)\s*;', cm, flags=re.S)
+    if not m:
+        raise TranslateError('connect_mx: default branch of the first netget(0) not recognised')
+    body = m.group(1).strip()
+    if body == '':
+        out += 'Definition QR_CONN_ERR_REPORTS : bool := false.\nDefinition QR_RPT_CONN_TIMEOUT : list N := []%N.\nDefinition QR_RPT_CONN_ERR : list N := []%N.\n'
+    else:
+        m2 = re.fullmatch(r'if\s*\(s\s*==\s*-ETIMEDOUT\)\s*\{\s*write_status\("([^"]*)"\)\s*;\s*\}\s*else\s*\{\s*const\s+char\s*\*tmp\[\]\s*=\s*\{\s*"([^"]*)"\s*,\s*strerror\(-s\)\s*\}\s*;\s*write_status_m\(tmp\s*,\s*2\)\s*;\s*\}', body)
+        if not m2:
+            raise TranslateError('connect_mx: reporting in the default branch of the first netget(0) not recognised: %r' % body)
+        out += 'Definition QR_CONN_ERR_REPORTS : bool := true.\n'
+        out += 'Definition QR_RPT_CONN_TIMEOUT : list N := %s.\n' % coq_bytes(first_word(m2.group(1)))
+        out += 'Definition QR_RPT_CONN_ERR : list N := %s.\n' % coq_bytes(first_word(m2.group(2)))
+
     # ---- status.c: the terminator written by write_status()/write_status_m() is "\n" with length 2
     sc = strip_comments(read(repo, 'qremote/status.c'))
     ms = re.findall(r'iov_base\s*=\s*"([^"]*)"\s*[,;]\s*(?:vectors\[count\])?\.iov_len\s*=\s*(\d+)', sc)
